@@ -87,17 +87,19 @@ def _mk(prefix, shapes, tier):
                 exists.append(vc.And(is_this, maximal))
             vc.ensure(f"O-C07-munkres.opt{S}", vc.Or(*exists))
 
-        @obligation("C07", f"{prefix}allvis{S}", ensures=[f"O-C07-allvis{S}"], fns=[DD + "AllVisibleDecision._calculate", DB + "Decision.calculate"],
-                    mode="R", tier=tier, bounded=f"shape {n}x{m}")
+        # (one path per visibility mask: 2^(n*m); 4x4 would be 65 536 paths - the thorough tier stops at 12 cells)
+        @(obligation("C07", f"{prefix}allvis{S}", ensures=[f"O-C07-allvis{S}"], fns=[DD + "AllVisibleDecision._calculate", DB + "Decision.calculate"],
+                     mode="R", tier=tier, bounded=f"shape {n}x{m}") if n * m <= 12 else (lambda f: f))
         def allvis(vc, n=n, m=m, S=S):
             R, V = _RV(vc, n, m)
             pol = vc.new(DD + "AllVisibleDecision")
             D = pol.calculate(R, V)
             vc.ensure(f"O-C07-allvis{S}", vc.And(*[vc.iff(D[i, j], V[i, j]) for i in range(n) for j in range(m)]))
 
-        @obligation("C07", f"{prefix}random{S}", ensures=[f"O-C07-random.feasible{S}", f"O-C07-random.atmost1{S}", f"O-C07-random.tasks-if-any{S}"],
-                    fns=[DD + "RandomDecision._calculate", DB + "Decision.calculate"], mode="R", tier=tier, bounded=f"shape {n}x{m}",
-                    assumes=["numpy Generator.choice(a, 1) returns a 1-element array holding some element of a (library contract)"])
+        # (one path per mask AND per choice of the generator: 3x4 is 28 561 paths / 17 min - the thorough tier stops at 9 cells)
+        @(obligation("C07", f"{prefix}random{S}", ensures=[f"O-C07-random.feasible{S}", f"O-C07-random.atmost1{S}", f"O-C07-random.tasks-if-any{S}"],
+                     fns=[DD + "RandomDecision._calculate", DB + "Decision.calculate"], mode="R", tier=tier, bounded=f"shape {n}x{m}",
+                     assumes=["numpy Generator.choice(a, 1) returns a 1-element array holding some element of a (library contract)"]) if n * m <= 9 else (lambda f: f))
         def random_(vc, n=n, m=m, S=S):
             R, V = _RV(vc, n, m)
 
@@ -278,7 +280,7 @@ def _equiv(n, m, tier):
 
 
 _equiv(2, 2, "quick")
-_equiv(3, 2, "thorough")
+# (3x2: > 11 000 paths and 30 min of exploration - beyond the thorough budget; larger shapes only through the bounded stand-in)
 
 
 @obligation("C07", "policies_bounded", ensures=["B-C07-large.feasible", "B-C07-large.atmost1", "B-C07-large.greedy-opt", "B-C07-large.munkres-opt", "B-C07-large.allvis", "B-C07-large.random"],
